@@ -1,13 +1,15 @@
 """C18 — yaclib_std locks, condition variables and threads under fibers (DESIGN.md §3 C18)."""
 import os
+import re
 
 from vlib import common as C
 from vlib import conc
+from vlib import x_alias
 from vlib import x_fibersync
 
 MX = ['mx.lockStart', 'mx.lockAcq', 'mx.lockAcq.relock', 'mx.lockPark', 'mx.lockPark.relock', 'mx.tryOk', 'mx.tryFail',
       'mx.unlock.none', 'mx.unlock.wake', 'mx.tlfFast', 'mx.tlfPark', 'mx.tlfPark.now', 'mx.tlfRecheckAcq', 'mx.tlfRepark',
-      'mx.tlfTimeout', 'mx.cvWait', 'mx.cvWaitFor', 'mx.cvWaitFor.now', 'mx.cvTimeout', 'mx.notifyOne.none',
+      'mx.tlfTimeout', 'mx.cvWait', 'mx.cvWaitFor', 'mx.cvWaitFor.now', 'mx.cvWaitUntil', 'mx.cvWaitUntil.past', 'mx.cvTimeout', 'mx.notifyOne.none',
       'mx.notifyOne.wake', 'mx.notifyAll', 'mx.sleepStart', 'mx.sleepWake', 'mx.finish']
 RM = ['rm.lockFast', 'rm.lockFast.again', 'rm.lockPark', 'rm.lockRecheckAcq', 'rm.lockRepark', 'rm.tryOk', 'rm.tryOk.again',
       'rm.tryFail', 'rm.unlock.last', 'rm.unlock.last.wake', 'rm.unlock.inner', 'rm.tlfFast', 'rm.tlfPark', 'rm.tlfRecheckAcq',
@@ -37,17 +39,51 @@ def extract(res):
     C.write_if_changed(os.path.join(C.LEAN, 'YaclibModel/Extracted/FiberSync.lean'), text)
 
 
+def extract_alias(res):
+    """T1 (text): regenerate Extracted/FiberAlias.lean — which std name is which type per backend (yaclib_std alias headers) and the
+    class shells of the injection wrappers; Props/C18.lean proves the tables are the expected ones.  Fails closed."""
+    try:
+        text = x_alias.generate(C.REPO)
+        res.coverage['translator_x_alias'] = 'ok'
+    except Exception as e:  # noqa: BLE001
+        msg = str(e).split('\n')[0][:300].replace('"', "'")
+        text = ('namespace Yaclib.Extracted.FiberAlias\n-- the translator failed: nothing below is trustworthy\n'
+                'example : "x_alias failed: %s" = "" := rfl\nend Yaclib.Extracted.FiberAlias\n' % msg)
+        res.coverage['translator_x_alias'] = 'FAILED: ' + msg
+    C.write_if_changed(os.path.join(C.LEAN, 'YaclibModel/Extracted/FiberAlias.lean'), text)
+
+
 def link_probe(res):
-    """regression probe for D11 (fixed 72143ee): a program that calls the cv_status-returning timed waits must link"""
+    """every member of every yaclib_std lock / cv / thread type, every overload, every clock, must compile and link
+    (harness/c18_link.cpp; regression for D11, fixed 72143ee)"""
     try:
         C.build_harness('c18_link', 'fiber', ['c18_link.cpp'])
         return 'links'
     except C.BuildError as e:
-        if 'undefined reference' in str(e):
-            res.violation(str(e)[-3000:], 'yaclib_std::condition_variable::wait_for/wait_until without predicate do not link '
-                          '(harness/c18_link.cpp)', name='C18_link_probe.txt')
-            return 'undefined reference'
-        raise
+        res.violation(str(e)[-3000:], 'a program that calls every member of the yaclib_std lock, condition variable and thread types '
+                      'does not build under FIBER (harness/c18_link.cpp): ' + (re.findall(r'(?:error|undefined reference)[^\n]*', str(e)) or ['?'])[0][:200],
+                      name='C18_link_probe.txt')
+        return 'does not build'
+
+
+def native_handle_probe(res):
+    """D15: native_handle() of the lock types (harness/c18_link_nh.cpp).  An open entry of known_findings.json turns the failure
+    into KNOWN-FINDING; anything else about this probe is a violation."""
+    try:
+        C.build_harness('c18_link_nh', 'fiber', ['c18_link_nh.cpp'])
+        return 'links'
+    except C.BuildError as e:
+        syms = sorted(set(re.findall(r"undefined reference to `([^']+)'", str(e))))
+        if syms and all(x.endswith('::native_handle()') for x in syms):
+            key = 'D15 native_handle does not link: ' + ', '.join(syms)
+        else:
+            key = 'native_handle probe does not build: ' + (re.findall(r'error[^\n]*', str(e)) or ['?'])[0][:200]
+        for k in C.load_findings().get('open', []):
+            if isinstance(k, dict) and k.get('property') == 'C18' and k.get('match') and re.search(k['match'], key):
+                res.known_finding(k['what'])
+                return 'known finding ' + str(k.get('id'))
+        res.violation(str(e)[-3000:], key + ' (harness/c18_link_nh.cpp)', name='C18_link_probe_native_handle.txt')
+        return 'does not build'
 
 
 def run(res, tier):
@@ -62,8 +98,10 @@ def run(res, tier):
         'fiber_dbg build: the library\'s own YACLIB_DEBUG/ASSERT are turned into callbacks and used as an extra monitor',
     ]
     extract(res)
-    res.coverage['link_probe_cv_wait_for'] = link_probe(res)
-    # open findings (none for C18 at the moment) come from /verif/known_findings.json through conc.concurrent_check
+    extract_alias(res)
+    res.coverage['link_probe_every_member'] = link_probe(res)
+    res.coverage['link_probe_native_handle'] = native_handle_probe(res)
+    # open findings come from /verif/known_findings.json (D15 above; scenario findings through conc.concurrent_check)
     conc.concurrent_check(
         res, 'C18', tier, 'c18.cpp', 'fibersync', RULES,
         quick_args=['--mode', 'dfs', '--pb', '2', '--wb', '0', '--max-exec', '30000', '--random-scenarios', '16'],
